@@ -5,9 +5,9 @@ from vlib import *
 import core
 
 ASSUME = [
-    "byte strings: valid messages of 17 kinds with every JSON path (object member or array element) dropped / nulled / emptied / replaced by a bogus or wrong-kind value, plus 12 byte-level junk variants "
+    "byte strings: valid messages of 17 kinds with every JSON path (object member or array element) dropped / nulled / emptied / replaced by a bogus, wrong-kind or swapped (valid but not fitting: another function, classifier, role, type, neighbouring number) value, plus 12 byte-level junk variants "
     "(truncation, wrong top-level shapes, nested garbage); arbitrary byte strings beyond that are not enumerated",
-    "phases: connected (before discovery), discovered, bound + subscribed with data, with a write pending approval",
+    "phases: connected (before discovery), discovered, bound + subscribed with data, with a write pending approval, reconnected (a write was pending, the connection was lost and set up again with the same SKI)",
     "a hang is a delivery that does not return within 3 s; afterwards the stack must answer a valid discovery read of both peers",
     "panics are keyed by the innermost spine-go function (no line numbers); a listed function that additionally leaves a peer unserved must be listed for that separately",
 ]
@@ -34,16 +34,19 @@ def run(prop, tier, seed, replay=None):
             open(os.path.join(SPEC, "RobustRun.tla"), "w").write("---- MODULE RobustRun ----\nEXTENDS Robust\nNFieldsDef == %s\n====\n" % nf)
             cases, states = [], 0
             try:
-                modes = [("single", ["discovered", "bound"] if quick else ["connected", "discovered", "bound", "pending"], 0),
+                modes = [("single", ["discovered", "bound"] if quick else ["connected", "discovered", "bound", "pending", "reconnected"], 0),
                          ("pairs", ["bound"] if quick else ["discovered", "bound", "pending"], 60 if quick else 1500),
                          ("seq", ["bound"], 40 if quick else 400),
                          ("followup", ["bound"], 0)]
                 if quick:
                     modes.insert(1, ("single1", ["connected", "pending"], 0))
+                    modes.insert(2, ("single2", ["reconnected"], 0))
                 for mode, phases, sample in modes:
                     tmpls = set(cat)
                     if mode == "single1":  # the other two phases with a third of the templates (quick tier)
                         mode, tmpls = "single", {"discReply", "discNotifyAdd", "subRequest", "bindDelete", "write", "result", "readSel"}
+                    if mode == "single2":  # after a reconnection: the messages that touch per-connection state
+                        mode, tmpls = "single", {"write", "writeDelete", "bindRequest", "subDelete", "reply", "notifySel", "result", "discNotifyFull"}
                     if mode == "followup" and quick:  # quick tier: the data-carrying messages first (thorough: the discovery ones too)
                         tmpls = tmpls - {"discReply", "discNotifyAdd", "discNotifyFull", "subRequest", "bindDelete", "discNotifyRemove"}
                     c = {"Templates": tmpls, "Phases": set(phases), "Mode": mode, "MaxSeq": 2, "Sample": sample, "JunkKinds": 12}
@@ -104,7 +107,7 @@ def run(prop, tier, seed, replay=None):
             kf = next(x for x in known if x["property"] == prop and x.get("function") == f)
             print("KNOWN-FINDING: property=%s panic in %s: %s" % (prop, f, kf["identified_by"]))
         cov = {"evaluations": lines, "distinct_nontrivial": len(cases),
-               "rule": "every single-field mutation (711 JSON paths of 17 templates x 5 operations) and 12 junk variants per template in the connection phases, every single-field mutation of a "
+               "rule": "every single-field mutation (711 JSON paths of 17 templates x 6 operations) and 12 junk variants per template in the connection phases, every single-field mutation of a "
                        "state-carrying message followed by every valid data message, seeded samples of two-field mutations and of two-delivery sequences, enumerated by TLC from Robust.tla; each delivered to a fresh real stack with two peers; distinct = cases",
                "samples": [sample], "model_states": states, "bad": nbad, "known_panic_functions_seen": sorted(devs), "fields": sum(len(v) for v in cat.values()),
                "checker_cmd": "tlc Robust.tla (enumeration); harness robust-replay; tlc RobustTrace.tla"}
